@@ -549,6 +549,8 @@ class Checker:
         def has_def(j_, p_):
             return p_.default is not None or (
                 top is not None and j_ < len(top.params) and top.params[j_].default is not None)
+        strict_positional = self.lang in ('kotlin', 'scala') and not any(
+            q.vararg for q in params)
         required_after = [0] * (len(params) + 1)
         for j in range(len(params) - 1, -1, -1):
             pj = params[j]
@@ -568,7 +570,13 @@ class Checker:
             if p.name in named:
                 a = named[p.name]
                 self.assignable(self.typeof(a.expr, sc, where, pt), pt, where, 'arg', a.expr)
-            elif has_default and (len(pos) - i) <= required_after[j + 1]:
+            elif has_default and (
+                    i >= len(pos) if strict_positional
+                    else (len(pos) - i) <= required_after[j + 1]):
+                # Kotlin / Scala bind positional arguments strictly left to right: a parameter
+                # with a default is skipped only when no positional argument is left (a later
+                # parameter WITHOUT default then stays unbound).  Groovy and Java realise
+                # defaults by overloads that drop defaulted parameters wherever they stand.
                 continue
             else:
                 if i >= len(pos):
